@@ -57,7 +57,7 @@ var mFiles []*mFile
 var mStubCalls int
 
 func mRewrite(form int) *openfgav1.Userset {
-	this := &openfgav1.Userset{Userset: &openfgav1.Userset_This{}}
+	this := &openfgav1.Userset{Userset: &openfgav1.Userset_This{This: &openfgav1.DirectUserset{}}}
 	switch form {
 	case 0:
 		return this
